@@ -1639,11 +1639,19 @@ namespace gch
             &&  std::is_integral<to>::value;
       };
 
+      // Only conversions which never adjust the pointer value may be performed by copying bytes:
+      // cv-qualification changes and conversions to (cv) void pointers. A derived-to-base
+      // conversion may have to add the offset of the base subobject.
       template <typename From, typename To>
       struct is_convertible_pointer
         : bool_constant<std::is_pointer<From>::value
                     &&  std::is_pointer<To>::value
-                    &&  std::is_convertible<From, To>::value>
+                    &&  std::is_convertible<From, To>::value
+                    &&  (  std::is_void<typename std::remove_pointer<To>::type>::value
+                       ||  std::is_same<
+                             typename std::remove_cv<typename std::remove_pointer<From>::type>::type,
+                             typename std::remove_cv<typename std::remove_pointer<To>::type>::type
+                             >::value)>
       { };
 
       // Memcpyable assignment.
